@@ -6,7 +6,7 @@ import json, glob, os
 ENUM = ("ATOM.a", "ATOM", "OVF", "PRE", "LIVE.a", "LIVE", "SURFACE", "TYPE", "UNW", "CELL.d", "CELL", "STICKY", "ORD.iii", "ORD",
         "LEAK.prim", "OWN.a", "OWN", "DONE-EVID", "DONE-SET")
 # rules that enumerate a *tolerated* construct (an adaptor method left at the trait default): fewer of them is never a loss
-NO_FLOOR = ("FWD.cover",)
+NO_FLOOR = ("FWD.cover", "OWN.f")
 out = {}
 for f in sorted(glob.glob("/verif/evidence/C*.json")):
     d = json.load(open(f))
